@@ -385,7 +385,8 @@ Lemma base_class_ctx : forall fs fs' x x', Forall2 same_but_context fs fs' -> sa
   base_class fs x = base_class fs' x'.
 Proof.
   intros fs fs' x x' H (_ & Hg & Hc & _). unfold base_class. induction H as [|y y' t t' (_ & Hg' & Hc' & _) _ IH]; cbn; [reflexivity|].
-  unfold base_eqb at 1 3. rewrite Hg, Hc, Hg', Hc'. destruct (_ && _); [reflexivity | rewrite IH; reflexivity].
+  assert (E : base_eqb y x = base_eqb y' x') by (unfold base_eqb, hash_eqb, opts_agree; rewrite Hg, Hc, Hg', Hc'; reflexivity).
+  rewrite E. destruct (base_eqb y' x'); [reflexivity | rewrite IH; reflexivity].
 Qed.
 
 Lemma context_irrelevant_l : forall fs fs', Forall2 same_but_context fs fs' -> group_features fs = group_features fs'.
@@ -509,9 +510,9 @@ Proof.
 Qed.
 
 (* equal canonical forms have equal hashes ... *)
-Lemma canon_eqb_base_eqb : forall a b, canon_eqb a b = true -> base_eqb a b = true.
+Lemma canon_eqb_hash_eqb : forall a b, canon_eqb a b = true -> hash_eqb a b = true.
 Proof.
-  intros a b H. unfold canon_eqb in H. unfold base_eqb. apply andb_true_iff in H. destruct H as [H1 H2].
+  intros a b H. unfold canon_eqb in H. unfold hash_eqb. apply andb_true_iff in H. destruct H as [H1 H2].
   destruct (hash_key (VDict (g_group a))) as [x|]; [|discriminate]. destruct (hash_key (VDict (g_group b))) as [y|]; [|discriminate].
   rewrite (hnorm_respects_eq _ _ H1), H2. reflexivity.
 Qed.
@@ -527,30 +528,45 @@ Proof.
   rewrite (hash_key_respects_eq_l _ _ x y Wa Wb Na Nb H1 Ea Eb), H2. reflexivity.
 Qed.
 
-(* features with equal (group options, frameworks) are in the same hash class ... *)
+(* features with equal (group options, frameworks) have the same hash integer, so a dict keyed by them never splits them *)
+Lemma equal_options_same_hash_l : forall a b,
+  wfv (VDict (g_group a)) -> wfv (VDict (g_group b)) -> nofs (VDict (g_group a)) -> nofs (VDict (g_group b)) ->
+  hash_key (VDict (g_group a)) <> None -> hash_key (VDict (g_group b)) <> None ->
+  opts_agree a b = true -> hash_eqb a b = true.
+Proof. intros a b Wa Wb Na Nb Ha Hb H. apply canon_eqb_hash_eqb. apply agree_canon_eqb; assumption. Qed.
 Lemma equal_options_same_class_l : forall a b,
   wfv (VDict (g_group a)) -> wfv (VDict (g_group b)) -> nofs (VDict (g_group a)) -> nofs (VDict (g_group b)) ->
   hash_key (VDict (g_group a)) <> None -> hash_key (VDict (g_group b)) <> None ->
   opts_agree a b = true -> base_eqb a b = true.
-Proof. intros a b Wa Wb Na Nb Ha Hb H. apply canon_eqb_base_eqb. apply agree_canon_eqb; assumption. Qed.
+Proof. intros a b Wa Wb Na Nb Ha Hb H. unfold base_eqb. rewrite (equal_options_same_hash_l a b Wa Wb Na Nb Ha Hb H), H. reflexivity. Qed.
+(* one dictionary key <-> equal (options, frameworks) *)
+Lemma same_class_iff_equal_options_l : forall a b,
+  wfv (VDict (g_group a)) -> wfv (VDict (g_group b)) -> nofs (VDict (g_group a)) -> nofs (VDict (g_group b)) ->
+  hash_key (VDict (g_group a)) <> None -> hash_key (VDict (g_group b)) <> None ->
+  (base_eqb a b = true <-> opts_agree a b = true).
+Proof.
+  intros a b Wa Wb Na Nb Ha Hb. split; [|apply equal_options_same_class_l; assumption].
+  unfold base_eqb. intros H. apply andb_true_iff in H. exact (proj2 H).
+Qed.
 
-(* ... but not conversely.  (1) one canonical form for unequal options: a list and a tuple with the same elements *)
+(* The converse fails for the hash INTEGER alone -- the former known findings, kept as regression witnesses: the repaired
+   code computes them separately.  (1) one canonical form for unequal options: a list and a tuple with the same elements *)
 Definition gf1 (i : nat) (v : pyval) : gfeat := {| g_id := i; g_group := [(KStr "c", v)]; g_ctx := []; g_cfw := None; g_ty := Some 1 |}.
 Definition hc_a : gfeat := gf1 0 (VList [VInt 1%Z; VInt 2%Z]).
 Definition hc_b : gfeat := gf1 1 (VTuple [VInt 1%Z; VInt 2%Z]).
-Lemma hash_conflation_refuted_l :
-  opts_agree hc_a hc_b = false /\ canon_eqb hc_a hc_b = true /\ base_eqb hc_a hc_b = true /\
+Lemma hash_conflation_regression_l :
+  opts_agree hc_a hc_b = false /\ canon_eqb hc_a hc_b = true /\ hash_eqb hc_a hc_b = true /\ base_eqb hc_a hc_b = false /\
   kf_canon_conflation [hc_a; hc_b] = true /\ kf_hash_collision [hc_a; hc_b] = false /\ kf_hash_conflation [hc_a; hc_b] = true /\
-  group_features [hc_a; hc_b] = [[0; 1]] /\ group_features_eq [hc_a; hc_b] = [[0]; [1]].
+  group_features [hc_a; hc_b] = [[0]; [1]].
 Proof. vm_compute. repeat split. Qed.
 
 (* (2) different canonical forms with one hash integer: hash(-1) = hash(-2) *)
 Definition hc_e : gfeat := gf1 0 (VInt (-1)%Z).
 Definition hc_f : gfeat := gf1 1 (VInt (-2)%Z).
-Lemma hash_collision_refuted_l :
-  opts_agree hc_e hc_f = false /\ canon_eqb hc_e hc_f = false /\ base_eqb hc_e hc_f = true /\
+Lemma hash_collision_regression_l :
+  opts_agree hc_e hc_f = false /\ canon_eqb hc_e hc_f = false /\ hash_eqb hc_e hc_f = true /\ base_eqb hc_e hc_f = false /\
   kf_hash_collision [hc_e; hc_f] = true /\ kf_canon_conflation [hc_e; hc_f] = false /\ kf_hash_conflation [hc_e; hc_f] = true /\
-  group_features [hc_e; hc_f] = [[0; 1]] /\ group_features_eq [hc_e; hc_f] = [[0]; [1]].
+  group_features [hc_e; hc_f] = [[0]; [1]].
 Proof. vm_compute. repeat split. Qed.
 (* the other collisions of the modelled hash: "" / 0, z / z mod (2^61 - 1), an Enum member / its name, and the same
    inside a tuple, a list, a nested dict (each pair is replayed on the implementation by the harness) *)
@@ -562,9 +578,8 @@ Definition collide_pairs : list (pyval * pyval) :=
     (VSet [VInt (-1)%Z], VSet [VInt (-2)%Z]) ].
 Lemma hash_collision_pairs_l :
   forallb (fun p => let a := gf1 0 (fst p) in let b := gf1 1 (snd p) in
-                    base_eqb a b && negb (canon_eqb a b) && negb (opts_agree a b)
-                    && all2 (all2 Nat.eqb) (group_features [a; b]) [[0; 1]]
-                    && all2 (all2 Nat.eqb) (group_features_eq [a; b]) [[0]; [1]]) collide_pairs = true.
+                    hash_eqb a b && negb (canon_eqb a b) && negb (opts_agree a b) && negb (base_eqb a b)
+                    && all2 (all2 Nat.eqb) (group_features [a; b]) [[0]; [1]]) collide_pairs = true.
 Proof. vm_compute. reflexivity. Qed.
 
 (* when the hash-class relation is an equivalence on the request (it is: equality of hash integers), the class index
@@ -605,31 +620,23 @@ Proof.
     + rewrite (Ht x b a Hx Hb Ha E2 (Hs a b Ha Hb H)) in E1. discriminate.
 Qed.
 
-(* ---------- outside the two domains the hash-based grouping IS grouping by equality ---------- *)
+(* ---------- the code groups by equality of (group options, frameworks) ---------- *)
 Lemma existsb_false_in : forall A (p : A -> bool) l x, existsb p l = false -> In x l -> p x = false.
 Proof.
   intros A p l x H Hx. destruct (p x) eqn:E; [|reflexivity].
   assert (existsb p l = true) by (apply existsb_exists; exists x; split; assumption). congruence.
 Qed.
-Lemma no_conflation_agree : forall fs, kf_hash_conflation fs = false ->
-  forall a b, In a fs -> In b fs -> base_eqb a b = true -> opts_agree a b = true.
+Lemma grouping_by_equality_l : forall fs, hashable_request fs -> group_features fs = group_features_eq fs.
 Proof.
-  intros fs H a b Ha Hb E. unfold kf_hash_conflation in H.
-  pose proof (existsb_false_in _ _ _ a H Ha) as H1. cbv beta in H1.
-  pose proof (existsb_false_in _ _ _ b H1 Hb) as H2. cbv beta in H2. rewrite E in H2.
-  destruct (opts_agree a b); [reflexivity | discriminate].
-Qed.
-Lemma grouping_by_equality_partial_l : forall fs, hashable_request fs -> kf_hash_conflation fs = false ->
-  group_features fs = group_features_eq fs.
-Proof.
-  intros fs Hh Hk. unfold group_features, group_features_eq. f_equal. f_equal. apply map_ext_in. intros x Hx.
+  intros fs Hh. unfold group_features, group_features_eq. f_equal. f_equal. apply map_ext_in. intros x Hx.
   unfold item_of, item_of_eq. f_equal. unfold base_class, eq_class. apply first_idx_ext. intros y Hy. cbv beta.
+  destruct (Hh y Hy) as (Wy & Ny & Hy'). destruct (Hh x Hx) as (Wx & Nx & Hx').
+  pose proof (same_class_iff_equal_options_l y x Wy Wx Ny Nx Hy' Hx') as [H1 H2].
   destruct (base_eqb y x) eqn:E1, (opts_agree y x) eqn:E2; try reflexivity.
-  - rewrite (no_conflation_agree fs Hk y x Hy Hx E1) in E2. discriminate.
-  - destruct (Hh y Hy) as (Wy & Ny & Hy'). destruct (Hh x Hx) as (Wx & Nx & Hx').
-    rewrite (equal_options_same_class_l y x Wy Wx Ny Nx Hy' Hx' E2) in E1. discriminate.
+  - discriminate (H1 eq_refl).
+  - discriminate (H2 eq_refl).
 Qed.
-(* the union of the two domains is the whole conflation domain *)
+(* the union of the two (former known-defect) domains is the whole domain where the hash integer conflates *)
 Lemma kf_split_l : forall fs, hashable_request fs ->
   kf_hash_conflation fs = kf_canon_conflation fs || kf_hash_collision fs.
 Proof.
@@ -645,7 +652,7 @@ Proof.
       apply existsb_exists in E'. destruct E' as (a & Ha & E'). apply existsb_exists in E'. destruct E' as (b & Hb & E').
       apply andb_true_iff in E'. destruct E' as [E1 E2].
       pose proof (existsb_false_in _ _ _ a E Ha) as H1. cbv beta in H1. pose proof (existsb_false_in _ _ _ b H1 Hb) as H2. cbv beta in H2.
-      rewrite (canon_eqb_base_eqb a b E1), E2 in H2. discriminate.
+      rewrite (canon_eqb_hash_eqb a b E1), E2 in H2. discriminate.
     + destruct (existsb _ fs) eqn:E' at 1; [|reflexivity]. exfalso.
       apply existsb_exists in E'. destruct E' as (a & Ha & E'). apply existsb_exists in E'. destruct E' as (b & Hb & E').
       apply andb_true_iff in E'. destruct E' as [E1 E2].
